@@ -29,10 +29,9 @@ def interp_points(wp: int, wn: int, bu: int, xp: int, dx: int) -> bool:
 
 def _interp_points(wp, wn, bu, xp, dx):
     # The code under test formats wrapDiff and xInc into a debug message, which makes CrossHair realize them anyway (after building a
-    # nonlinear term the solver times out on).  Realizing the two wrap counts first keeps every path decidable; the path tree still
+    # nonlinear term the solver times out on).  Picking the two wrap counts by ordinary branching first keeps every path decidable; the path tree still
     # covers every (wrapPrev, wrapNow) pair of the precondition.
-    from crosshair import realize
-    wp, wn = realize(wp), realize(wn)
+    wp, wn = mark.pick(wp, -3, 3), mark.pick(wn, -3, 3)
     twd = PRESCfg.TrackWidthData(2.0, 5.0, 0, 2)
     ltb = PRESCfg.LineTransLin(2.0, 5.0, 0.0, 10.0, BACKUPS[bu])
     xn = xp + dx
